@@ -14,7 +14,7 @@ def main():
         if c.assumed or pat not in q:
             continue
         try:
-            extract.find_function(q)
+            extract.find_function(c.source or q)
             qs.append(q)
         except extract.ExtractError:
             pass
